@@ -19,7 +19,7 @@ import (
 
 func c05Counts(tier string) (trees, batches, per int) {
 	if tier == "thorough" {
-		return 1200, 1000, 50
+		return 3000, 4000, 50
 	}
 	return 150, 100, 20
 }
@@ -125,10 +125,16 @@ func checkWLPassword(w WLCase, kept []string, p *spg.Password, sepReturns []stri
 		if !ok {
 			return "capitalisation-one", fmt.Sprintf("scheme one: atoms %q are not list words with exactly one of them title-cased", atoms)
 		}
-	default: // random and unknown scheme strings
+	case "random":
 		for i, a := range atoms {
 			if !isKept(a) && !isTitle(a) {
 				return "atom-not-a-list-word", fmt.Sprintf("atom %d %q is neither a list word nor its title-cased form", i, a)
+			}
+		}
+	default: // a string that is none of the five schemes selects no position
+		for i, a := range atoms {
+			if !isKept(a) {
+				return "capitalisation-unknown-scheme", fmt.Sprintf("scheme %q is not one of the five schemes and selects no position, but atom %d %q is not a word of the list as listed", w.Scheme, i, a)
 			}
 		}
 	}
